@@ -28,3 +28,12 @@ package otlpmetrichttp
 //@   assert@call bodyReader#1 : $arg0 === body
 //@   ghost@call bodyReader#* : brCalls = brCalls + 1
 //@   assert@store bodyReader#* : brCalls == 1
+
+// the per-attempt closure: a retryable error (newResponseError) is produced for exactly two outcomes - a temporary transport error
+// (call #1), or a response with status 429, 502, 503 or 504; every other status is reported as a plain, non-retryable error
+// whatever its headers
+//@ func (c *client) UploadMetrics$1(iCtx context.Context) (err error)
+//@   prop C14
+//@   overflow assumed
+//@   unchecked frame,no-panic net/http, protobuf and io are outside the contracts
+//@   assert@call newResponseError#2+ : resp != nil && (resp.StatusCode == 429 || resp.StatusCode == 502 || resp.StatusCode == 503 || resp.StatusCode == 504)
